@@ -9,7 +9,7 @@ CFG = dict(
     rule="one case = one query (1-5 SELECT aggregates over count/sum/avg/min/max of v, V, v2, w, *; predicate tree of depth <= 3 with AND/OR over comparisons "
          "(>,>=,<,<=,=,!=) of selected and unselected aggregate calls incl. the same call twice, case-variant and prefix field names; random textual layout) and 6-36 rows over 1-4 groups "
          "(0-2 key columns, NULL/absent key parts), cells numeric (int/int64/float64) / NULL / absent / non-numeric at rates 0-60%; executed on the real GlobalWindow "
-         "synchronously (verif hook), through Start/Add with an input-drain barrier, and through SQL (Execute/Emit/sync sink, sentinel row); distinct = distinct (cfg, op list) Added late: GetStats / ResetStats / TriggerWindow in mid-stream (sql mode, `stats`); the STATETTL reaper removing every group in mid-stream (direct mode, op `reset`). Every fifth case runs under WithHighPerformance (`preset high`), for C05/C06/C12/C13/C14/C16/C20 another fifth under WithLowLatency (`preset low`); every seventh case follows a noise prelude (failing statements, malformed rows, panicking sink / function in other instances).",
+         "synchronously (verif hook), through Start/Add with an input-drain barrier, and through SQL (Execute/Emit/sync sink, sentinel row); distinct = distinct (cfg, op list) Added late: GetStats / ResetStats / TriggerWindow in mid-stream (sql mode, `stats`); the STATETTL reaper removing every group in mid-stream (direct mode, op `reset`); an unread output channel of one slot (direct / chan, `outbuf`). Every fifth case runs under WithHighPerformance (`preset high`), for C05/C06/C12/C13/C14/C16/C20 another fifth under WithLowLatency (`preset low`); every seventh case follows a noise prelude (failing statements, malformed rows, panicking sink / function in other instances).",
     assumptions=["mutex mutual exclusion: processRow is one critical section; STATETTL reaping is not part of the model; it is exercised only in scenarios where no group may be reaped (TTL 10 s, a real pause of 2 s, every group refreshed, the reaper run by hook 9 s 'later'), which the TTL-free model must therefore match; Reset is not modelled",
                  "expr-lang evaluates && / || left to right with short-circuit, `nil == x` false, `nil != x` true, ordering comparisons with nil abort (table in Model/Global.lean evalNullCmp/combAnd/combOr; validated by correspondence only, incl. the fast paths of condition.go)",
                  "numbers: theorems hold for every instance of Global.Num (no laws used: Int, Rat, Float); the driver runs at Float and compares results bit for bit; NaN/Inf inputs and |values| > 2^53 are not generated",
